@@ -265,7 +265,36 @@ def structural(source: str, stub: str, mode: str) -> list[dict]:
                                      "have": sorted(map(str, have_a))})
 
     compare("", collect(src_t), collect(stub_t), True)
+    # names listed in __all__ that the module merely imports are public too: the stub must bind them
+    if allv is not None:
+        src_bound = set(collect(src_t)) | imported_names(src_t)
+        stub_bound = set(collect(stub_t)) | imported_names(stub_t)
+        for name in allv:
+            if name in src_bound and name not in stub_bound:
+                if not any(p.get("name") == name for p in problems):
+                    problems.append({"class": "missing-name", "name": name, "kind": "__all__ re-export"})
     return problems
+
+
+def imported_names(tree: ast.Module) -> set[str]:
+    out: set[str] = set()
+
+    def walk(body: list[ast.stmt]) -> None:
+        for st in body:
+            if isinstance(st, ast.Import):
+                for al in st.names:
+                    out.add(al.asname or al.name.split(".")[0])
+            elif isinstance(st, ast.ImportFrom):
+                for al in st.names:
+                    out.add(al.asname or al.name)
+            elif isinstance(st, ast.If):
+                walk(st.body); walk(st.orelse)
+            elif isinstance(st, ast.Try):
+                walk(st.body); walk(st.orelse); walk(st.finalbody)
+                for h in st.handlers:
+                    walk(h.body)
+    walk(tree.body)
+    return out
 
 
 def unqualify(a: str | None) -> str | None:
